@@ -28,6 +28,7 @@ macro_rules! sw {
 sw!(A, "a");
 sw!(AB, "ab");
 sw!(Sp, " ");
+sw!(B, "b");
 
 /// The implicit-skip type used by all instantiations: `" "*`.
 type Ig = AtomicRepeat<Str<Sp>>;
@@ -563,6 +564,21 @@ fn skip_char<const N: usize>(inputs: &[String], rep: &mut Report) {
     );
 }
 
+/// An element that replaces the top entry (same depth, other content) before it can fail.
+pub struct EDropPush;
+impl Elem for EDropPush {
+    type Node<'i> = (pest_typed::predefined_node::DROP, (Push<Str<B>>, Str<A>));
+    const NAME: &'static str = "DROP then PUSH(\"b\") then \"a\"";
+    fn model(input: &str, pos: usize, stk: &[String]) -> Option<(usize, Vec<String>)> {
+        if stk.is_empty() || !input[pos..].starts_with("ba") {
+            return None;
+        }
+        let mut v = stk[..stk.len() - 1].to_vec();
+        v.push("b".to_string());
+        Some((pos + 2, v))
+    }
+}
+
 /// Elements that match without consuming input but make progress on the stack: an unbounded repetition
 /// of them terminates (the stack is finite) and must stay greedy.
 pub struct EPopOnly;
@@ -630,6 +646,14 @@ fn zero_width_progress(inputs: &[String], rep: &mut Report) {
     }
     elem!(EDrop);
     elem!(EPopOnly);
+    // (not zero-width, but it shares the deeper stacks) replace-and-abandon inside every kind of repetition
+    rep_min_max::<EDropPush, 0, 0, 3>(inputs, rep);
+    rep_min_max::<EDropPush, 1, 1, 2>(inputs, rep);
+    rep_min::<EDropPush, 1, 0>(inputs, rep);
+    rep_min::<EDropPush, 0, 1>(inputs, rep);
+    rep_exact::<EDropPush, 1, 2>(inputs, rep);
+    atomic_repeat::<EDropPush>(inputs, rep);
+    pair::<EOpt, EDropPush>(inputs, rep);
 }
 
 include!("c19_calls.rs");
